@@ -65,6 +65,7 @@ func C07(c *core.Ctx) {
 	}
 	runCompositions(c, rules, "Items")
 	ruleMultiSel(c, ruleSet("A-REJ", "A-NOEXTRA"), 2, "differing only in minItems", "differing only in maxItems")
+	ruleFidelity(c, "minItems", "maxItems")
 	c.Floor("families", c.Counts["members"], 80, "family members")
 }
 
